@@ -18,14 +18,15 @@ PROP = "C04"
 FAC = {"AUTH": 4, "AUTHPRIV": 10, "CRON": 9, "DAEMON": 3, "FTP": 11, "KERN": 0, "LOCAL0": 16, "LOCAL1": 17, "LOCAL2": 18, "LOCAL3": 19,
        "LOCAL4": 20, "LOCAL5": 21, "LOCAL6": 22, "LOCAL7": 23, "LPR": 6, "MAIL": 2, "NEWS": 7, "SYSLOG": 5, "USER": 1, "UUCP": 8}
 LVL = {"EMERG": 0, "ALERT": 1, "CRIT": 2, "ERR": 3, "WARNING": 4, "NOTICE": 5, "INFO": 6, "DEBUG": 7}
-OUTPUTS = ["file", "stdout", "stderr", "devtty", "socket", "devlog", "devnull", "noop", "unknown", "file-template", "default"]
+OUTPUTS = ["file", "stdout", "stderr", "devtty", "socket", "devlog", "devnull", "noop", "unknown", "file-template", "default", "fifo"]
 STREAM_SINK = {"file": "file0", "stdout": "stdout", "stderr": "stderr", "devtty": "tty", "file-template": "file1"}
 
 
 def gen_msg(rng, size_kind, lm):
     n = {"1": 1, "2": 2, "255": 255, "4094": 4094, "4095": 4095, "4096": 4096, "4097": 4097, "65535": 65535,
          "lm-1": lm - 1, "lm": lm, "small": rng.randrange(3, 80), "empty": 0,
-         "pow2": (1 << rng.randrange(1, 18)) + rng.choice([-2, -1, 0, 1, 2]), "any": rng.randrange(1, 5000)}[size_kind]
+         "pow2": (1 << rng.randrange(1, 18)) + rng.choice([-2, -1, 0, 1, 2]), "any": rng.randrange(1, 5000),
+         "over": lm + rng.choice([1, 2, 100, 5000])}[size_kind]
     n = max(1, n) if size_kind != "empty" else 0
     style = rng.choice(["allbytes", "ascii", "newlines", "marker"])
     if n == 0:
@@ -46,23 +47,25 @@ def make_cases(tr):
     rng = rng_for(PROP, tr)
     n = 2500 if tr == "quick" else 60000
     cases = []
-    sizes = ["1", "2", "255", "4094", "4095", "4096", "4097", "65535", "lm-1", "lm", "small", "small", "empty", "pow2", "pow2", "pow2", "any", "any", "any"]
+    sizes = ["1", "2", "255", "4094", "4095", "4096", "4097", "65535", "lm-1", "lm", "small", "small", "empty", "pow2", "pow2", "pow2", "any", "any", "any", "over", "over"]
     for i in range(n):
         out = rng.choice(OUTPUTS)
         lm = rng.choice([255, 4096, 16383, 65535, 200000 if out not in ("devtty",) else 4096])
         sk = rng.choice(sizes)
         msg = gen_msg(rng, sk, lm)
-        if len(msg) > lm:
+        if len(msg) > lm and sk != "over":
             msg = msg[:lm]
         if out == "devtty" and len(msg) > 3000:
-            msg = msg[:3000]        # pty buffers are small; the property is about content, capacity is C03's domain
+            msg = msg[:3000]
+        if out == "fifo" and len(msg) > 60000:
+            msg = msg[:60000]       # stays below the default pipe capacity: the property is about content, a full pipe is not        # pty buffers are small; the property is about content, capacity is C03's domain
         chain = rng.choice(["", "", "", "only_root", "noop;only_uid:0", "exclude_uid:0", "only_uid:7", "only_root;exclude_uid:0"])
         drop = chain in ("exclude_uid:0", "only_uid:7", "only_root;exclude_uid:0")
         fac = rng.choice(list(FAC))
         lvl = rng.choice(list(LVL))
         ident = rng.choice([None, b"snoopy", b"id-%{snoopy_literal:x}", b"%{env:IDV}", b"a b[c]:", b""])
         real = (rng.random() < (0.12 if tr == "quick" else 0.09)) and out != "devtty"
-        errlog = rng.random() < 0.08
+        errlog = rng.random() < (0.5 if sk == "over" else 0.08)
         static = rng.random() < 0.15
         if static:
             msg = b"STATIC"
@@ -86,7 +89,8 @@ def conf_for(c, B):
     o = c["out"]
     outline = {"file": "file:" + B.logf, "stdout": "stdout", "stderr": "stderr", "devtty": "devtty", "socket": "socket:" + B.sock,
                "devlog": "devlog", "devnull": "devnull", "noop": "noop", "unknown": "nosuchoutput:x",
-               "file-template": "file:" + B.work + "/tpl-%{snoopy_literal:lit}-%{env:IDV}", "default": None}[o]
+               "file-template": "file:" + B.work + "/tpl-%{snoopy_literal:lit}-%{env:IDV}", "default": None,
+               "fifo": "file:" + B.work + "/fifo-%d" % c["id"]}[o]
     fac, lvl = c["fac"], c["lvl"]
     if c["spell"] == "LOG_":
         fac, lvl = "LOG_" + fac, "LOG_" + lvl
@@ -95,7 +99,10 @@ def conf_for(c, B):
     fmt = "%{cmdline}"
     if c.get("static"):
         fmt = "STATIC"
-    t = "[snoopy]\nlog_message_max_length = %d\ndatasource_message_max_length = %d\nmessage_format = \"%s\"\n" % (c["lm"], max(255, c["lm"]), fmt)
+    ds = max(255, c["lm"])
+    if c["sk"] == "over":
+        ds = 1048575            # the source may deliver the whole over-long text: it then does not fit the message any more
+    t = "[snoopy]\nlog_message_max_length = %d\ndatasource_message_max_length = %d\nmessage_format = \"%s\"\n" % (c["lm"], ds, fmt)
     t += "syslog_facility = %s\nsyslog_level = %s\n" % (fac, lvl)
     if outline:
         t += "output = %s\n" % outline
@@ -120,7 +127,16 @@ def script_fn(c, B, s):
     if not getattr(B, "tpl_registered", False):
         s.sinkfile(os.path.join(B.work, "tpl-lit-idv"))      # file1: target of the path-template output
         B.tpl_registered = True
-    B.begin_case(s, c, solo=(c["out"] == "devtty" or c["real"] or c["afterfork"]))
+    if c["out"] == "fifo":
+        c["real"] = False
+        c["afterfork"] = False
+    B.begin_case(s, c, solo=(c["out"] in ("devtty", "fifo") or c["real"] or c["afterfork"]))
+    if c["out"] == "fifo":
+        # a FIFO as log file whose reader attaches only 150 ms after the call started
+        fp = B.work + "/fifo-%d" % c["id"]
+        s.raw("sinkreset")
+        s.sinkfile(fp + ".out")             # registered before it exists: everything the reader stores counts as new
+        s.raw("fifosink %s 150" % fp.encode().hex())
     s.conf(conf_for(c, B))
     if c["out"] == "devtty":
         s.raw("ctty")
@@ -142,11 +158,14 @@ def script_fn(c, B, s):
     else:
         # message travels in argv: cmdline of a single argument is that argument
         s.call(c["id"], "execve", b"/bin/c04", [c["msg"]] if c["msg"] else [b""], [b"E=1"], -1, 2)
+    if c["out"] == "fifo":
+        s.raw("waitreader")
+        s.raw("snap fifo%d" % c["id"])
     B.end_case(s, c)
 
 
 def check_fn(c, evs, B):
-    wit = dict(output=c["out"], chain=c["chain"], msg_len=len(c["msg"]), msg=short(c["msg"], 60), lm=c["lm"], facility=c["fac"],
+    wit = dict(case_id=c["id"], size_kind=c["sk"], static=c.get("static"), output=c["out"], chain=c["chain"], msg_len=len(c["msg"]), msg=short(c["msg"], 60), lm=c["lm"], facility=c["fac"],
                level=c["lvl"], ident=repr(c["ident"]), real=c["real"], error_logging=c["errlog"])
     ch = events_of(evs, "CHILD")
     real = events_of(evs, "REAL")
@@ -185,6 +204,29 @@ def check_fn(c, evs, B):
         B.count("real_success")
     o = c["out"]
     M = c["msg"]
+    if o == "fifo":
+        snap = [e for e in B.res.events if e["ev"] == "SNAP" and e.get("tag") == "fifo%d" % c["id"]]
+        if not snap:
+            raise Harness("no SNAP event for fifo case %d" % c["id"])
+        got = b""
+        for ev in real + events_of(evs, "END") + snap:      # the reader may store the record before or after the call returns
+            part = sink_bytes(ev, "file0") or b""
+            if isinstance(part, tuple):
+                part = part[1]
+            got += part
+        if len(M) > c["lm"] and not c["drop"]:
+            B.count("over_limit_not_judged")
+            return
+        want = b"" if (c["drop"] or M == b"") else M + b"\n"
+        if got != want:
+            B.F.violation("C04:fifo:%s" % ("record-missing" if not got else "content-differs"), "FIFO log file with a reader attaching 150 ms late received %s, expected %s (%s)" % (
+                short(got, 60), short(want, 60), "chain=%r message=%d bytes" % (c["chain"], len(M))), wit)
+        else:
+            B.count("exact:fifo" if want else "silent_ok")
+        return
+    if len(M) > c["lm"] and not c["drop"]:
+        B.count("over_limit_not_judged")        # what is logged for an over-long message is C05's business; here only: a drop stays silent
+        return
     expect_none = c["drop"] or M == b"" or o in ("devnull", "noop")
     desc = "output=%s chain=%r message=%d bytes" % (o, c["chain"], len(M))
     if later:
